@@ -593,3 +593,143 @@ def make_ctor_rule(rid, crates, floor):
         return res.finish(floor)
     rule.__name__ = "rule_ctor"
     return rule
+
+
+# ---------------------------------------------------------------------------------------------------------------------
+# `Default::default()` and `new()` are two public ways to the same "default" value
+def default_vs_new(F, crates):
+    """[(adt, default fn, new fn, verdict, field, text)] for every type of `crates` that has both a parameterless `new()` and
+    an `impl Default`"""
+    out = []
+    idx = adt_index(F)
+    for c in F.crates.values():
+        if c.name not in crates:
+            continue
+        by_adt = {}
+        for fn in c.fns:
+            d = fn["d"]
+            a = short(d.get("self_adt"))
+            if not a or "tests" in d["path"]:
+                continue
+            if d["name"] == "new" and not d.get("trait") and not fn["params"]:
+                by_adt.setdefault(a, {})["new"] = fn
+            if d["name"] == "default" and (d.get("trait") or "").endswith("Default"):
+                by_adt.setdefault(a, {})["default"] = fn
+        for a, fs in sorted(by_adt.items()):
+            if "new" not in fs or "default" not in fs:
+                continue
+            dfn_, nfn = fs["default"], fs["new"]
+            r = Render(c)
+            ent = idx.get(a)
+            if ent is not None and struct_fields(ent[1]) == []:
+                out.append((a, dfn_, nfn, "ok", None, "a type without fields"))
+                continue
+            lit_n = ctor_literal(nfn)
+            calls_new = any(y.get("k") == "Call" and strip(y["f"]).get("k") == "Path" and (c.dfn(strip(y["f"]).get("def")) or {}).get("name") == "new"
+                            and short((c.dfn(strip(y["f"]).get("def")) or {}).get("self_adt")) == a for y in walk(dfn_["body"]))
+            calls_default = any(y.get("k") == "Call" and strip(y["f"]).get("k") == "Path" and (c.dfn(strip(y["f"]).get("def")) or {}).get("name") == "default" for y in walk(nfn["body"]))
+            if calls_new or (calls_default and lit_n is None):
+                out.append((a, dfn_, nfn, "ok", None, "one forwards to the other"))
+                continue
+            lit_d = ctor_literal(dfn_)
+            if lit_n is None or (lit_d is None and not dfn_.get("exp")):
+                out.append((a, dfn_, nfn, "undecided", None, "a constructor without a struct literal"))
+                continue
+            bad = None
+            for f_ in lit_n["fields"]:
+                tn = r.e(peel_refs(f_["e"])).replace(" ", "")
+                if dfn_.get("exp") and lit_d is None:
+                    # derived Default: false / 0 / None / empty / Default::default()
+                    v = peel_refs(f_["e"])
+                    trivially_default = (v.get("k") == "Lit" and str(v.get("v")) in ("false", "0", "0.0", "0.", "\"\"")) or tn.endswith("::None") or tn == "None" \
+                        or tn.endswith("default()") or tn.endswith("::new()") or "PhantomData" in tn
+                    if not trivially_default:
+                        bad = (f_["name"], "new() stores %s, the derived Default stores the type's default value" % tn[:40])
+                        break
+                    continue
+                fd = next((g_ for g_ in lit_d["fields"] if g_["name"] == f_["name"]), None)
+                if fd is None:
+                    continue
+                td = r.e(peel_refs(fd["e"])).replace(" ", "")
+                if td != tn:
+                    bad = (f_["name"], "new() stores %s, default() stores %s" % (tn[:40], td[:40]))
+                    break
+            out.append((a, dfn_, nfn, "violation" if bad else "ok", bad[0] if bad else None, bad[1] if bad else ""))
+    return out
+
+
+def make_default_rule(rid, crates, floor):
+    def rule(ctx):
+        res = RuleResult(rid, "for every type of %s with both a parameterless `new()` and an `impl Default`, the two build the same value" % ", ".join(sorted(crates)))
+        F = ctx.facts()
+        for a, dfn_, nfn, verdict, fld, txt in default_vs_new(F, crates):
+            key = "%s : default-vs-new" % fn_key(dfn_)
+            res.instance(key)
+            if verdict == "ok":
+                res.ok()
+            elif verdict == "violation":
+                res.violate("%s : default-differs-from-new:%s" % (fn_key(dfn_), fld), "`%s::default()` and `%s::new()` disagree on `%s`: %s" % (a, a, fld, txt), fn_loc(dfn_))
+            else:
+                res.undecided(key, txt + " (fail closed)", fn_loc(dfn_))
+        return res.finish(floor)
+    rule.__name__ = "rule_default_vs_new"
+    return rule
+
+
+# ---------------------------------------------------------------------------------------------------------------------
+# a field copied from a like-named field of another struct
+def field_cross_copies(F, crates):
+    """[(fn, literal field, source field, node)] for struct literals `T { f: src.g, .. }` / `f: src.g()` where `src` is a
+    struct that has a field `f` of the same type as its field `g` (g != f): the value of the like-named sibling was meant.
+    Also returns the number of same-named copies seen (the instances the rule stands on)."""
+    idx = adt_index(F)
+    out, n_ok = [], 0
+    for c in F.crates.values():
+        if c.name not in crates:
+            continue
+        for fn in c.fns:
+            if fn.get("exp") or "tests" in fn["d"]["path"]:
+                continue
+            for lit in walk(fn["body"]):
+                if lit.get("k") != "Struct" or not lit.get("fields"):
+                    continue
+                for f_ in lit["fields"]:
+                    v = peel_refs(f_["e"])
+                    if v.get("k") == "MethodCall" and not v["args"]:
+                        g, base = v["name"], peel_refs(v["recv"])
+                    elif v.get("k") == "Field":
+                        g, base = v["name"], peel_refs(v["e"])
+                    else:
+                        continue
+                    bt = (c.ty(base.get("at", base.get("t"))) or "").lstrip("&").replace("mut ", "").strip()
+                    ent = idx.get(bt.split("<")[0]) or idx.get(short(bt.split("<")[0]))
+                    if ent is None:
+                        continue
+                    flds = struct_fields(ent[1])
+                    if not flds:
+                        continue
+                    names = {n_: t_ for n_, t_, _ in flds}
+                    if f_["name"] not in names or g not in names:
+                        continue
+                    if g == f_["name"]:
+                        n_ok += 1
+                    elif names[g] == names[f_["name"]]:
+                        out.append((fn, f_["name"], g, f_["e"]))
+    return out, n_ok
+
+
+def make_fieldcopy_rule(rid, crates, floor):
+    def rule(ctx):
+        res = RuleResult(rid, "a struct literal in %s that copies from a struct with a like-named field takes the like-named field (not a same-typed sibling)" % ", ".join(sorted(crates)))
+        F = ctx.facts()
+        found, n_ok = field_cross_copies(F, crates)
+        for i in range(n_ok):
+            res.instance("same-named copy #%d" % i)
+            res.ok()
+        for fn, f, g, node in found:
+            key = "%s : field-from-like-typed-sibling:%s<-%s" % (fn_key(fn), f, g)
+            res.instance(key)
+            res.violate(key, "`%s` is initialised from `.%s` of a struct that also has a field `%s` of the same type: the two values are exchanged or one is used twice" % (f, g, f), fn_loc(fn, node.get("ln")))
+        return res.finish(floor)
+    rule.__name__ = "rule_fieldcopy"
+    return rule
